@@ -219,59 +219,6 @@ theorem sub_mirror_o (n : Nat) (X Y : PB) (hX : WF n X) (hY : WF n Y) :
 
 /-! ## `div` mirrors `p ↔ o` through the reciprocal -/
 
-theorem zip4_length (f : Rat → Rat → Rat → Rat → Rat) (a b c d : List Rat) (n : Nat)
-    (ha : a.length = n) (hb : b.length = n) (hc : c.length = n) (hd : d.length = n) :
-    (zip4 f a b c d).length = n := by
-  induction a generalizing b c d n with
-  | nil => simp at ha; subst ha; simp [zip4]
-  | cons x t ih =>
-    cases b with
-    | nil => simp at hb; subst hb; simp at ha
-    | cons x2 t2 =>
-    cases c with
-    | nil => simp at hc; subst hc; simp at ha
-    | cons x3 t3 =>
-    cases d with
-    | nil => simp at hd; subst hd; simp at ha
-    | cons x4 t4 =>
-      cases n with
-      | zero => simp at ha
-      | succ k =>
-        simp only [zip4, List.length_cons, Nat.add_right_cancel_iff] at *
-        exact ih t2 t3 t4 k ha hb hc hd
-
-theorem min4_le_max4 (a b c d : Rat) : min4 a b c d ≤ max4 a b c d := by
-  unfold min4 max4
-  exact le_trans (le_trans (min_le_left _ _) (le_trans (min_le_left _ _) (min_le_left _ _)))
-    (le_trans (le_max_left _ _) (le_trans (le_max_left _ _) (le_max_left _ _)))
-
-theorem zip4_min_le_max (a b c d : List Rat) :
-    List.Forall₂ (· ≤ ·) (zip4 min4 a b c d) (zip4 max4 a b c d) := by
-  induction a generalizing b c d with
-  | nil => simp [zip4]
-  | cons x t ih =>
-    cases b with
-    | nil => simp [zip4]
-    | cons x2 t2 =>
-    cases c with
-    | nil => simp [zip4]
-    | cons x3 t3 =>
-    cases d with
-    | nil => simp [zip4]
-    | cons x4 t4 =>
-      simp only [zip4]
-      exact List.Forall₂.cons (min4_le_max4 _ _ _ _) (ih t2 t3 t4)
-
-/-- any focal pairing goes through the constructor: sorted lower endpoints, sorted upper endpoints -/
-theorem mk_cornerPair_ok (op : Rat → Rat → Rat) (n : Nat) (xl xr yl yr : List Rat)
-    (h1 : xl.length = n) (h2 : xr.length = n) (h3 : yl.length = n) (h4 : yr.length = n) :
-    mk n false (sortR (cornerPair op xl xr yl yr).1) (sortR (cornerPair op xl xr yl yr).2) =
-      .ok ⟨sortR (cornerPair op xl xr yl yr).1, sortR (cornerPair op xl xr yl yr).2⟩ := by
-  refine (mk_sorted_ok n _ _ ?_ ?_ ?_).1
-  · simp only [cornerPair]; apply zip4_length <;> simp [h1, h2, h3, h4]
-  · simp only [cornerPair]; apply zip4_length <;> simp [h1, h2, h3, h4]
-  · simp only [cornerPair]; exact zip4_min_le_max _ _ _ _
-
 theorem zipWith_mul_map_inv (a b : List Rat) :
     List.zipWith (· * ·) a (b.map (fun v => 1 / v)) = List.zipWith (· / ·) a b := by
   rw [List.zipWith_map_right]
